@@ -172,3 +172,19 @@ fix_norm_after_mul (mpz_ptr w, mpz_srcptr u)
   wn -= (wp[wn - 1] == 0);
   SIZ (w) = wn;
 }
+
+/* size-store positive: claims n + 1 limbs in a block that was only asked to hold n */
+void
+fix_size_exceeds (mpz_ptr w, mpz_srcptr u)
+{
+  mp_size_t n = ABSIZ (u);
+  mp_ptr wp;
+  if (n == 0 || w == u)
+    {
+      SIZ (w) = 0;
+      return;
+    }
+  wp = MPZ_REALLOC (w, n);
+  MPN_COPY (wp, PTR (u), n);
+  SIZ (w) = n + 1;
+}
